@@ -75,7 +75,7 @@ theorem C17_iterator (ho : TotalOrder cmp) (t : TreeTable) (h : t.Inv cmp) (prog
     (t.iterRun cmp t.iterInit prog m).2.1.root.RB ∧
     (t.iterRun cmp t.iterInit prog m).2.1.root.height ≤
       2 * Nat.log2 ((t.iterRun cmp t.iterInit prog m).2.1.size + 1) := by
-  have c := (C03.iter_refines_model ho t h prog m hm).2.2.1
+  have c := (C03.iter_refines ho t h prog m hm).2.2.1
   refine ⟨c.2.1, ?_⟩
   rw [c.2.2]; exact height_bound _ c.2.1
 
@@ -85,7 +85,7 @@ theorem C17_session (ho : TotalOrder cmp) (segs : List Segment) (t : TreeTable) 
     (hm : TreeTable.Owns t m) :
     (t.runSession cmp segs m).2.1.root.RB ∧
     (t.runSession cmp segs m).2.1.root.height ≤ 2 * Nat.log2 ((t.runSession cmp segs m).2.1.size + 1) := by
-  have c := (C03.session_refines_model ho segs t h m hm).2.2.1
+  have c := (C03.session_refines ho segs t h m hm).2.2.1
   refine ⟨c.2.1, ?_⟩
   rw [c.2.2]; exact height_bound _ c.2.1
 
@@ -150,7 +150,7 @@ theorem balanced_any_cmp (t : TreeTable) (hrb : t.root.RB) (hs : t.size = t.root
     generalize t.lookup cmp k = r at this ⊢
     rcases r with ⟨_ | v, n⟩
     · simp only at this ⊢; omega
-    · cases Tree.nextAfter t.root.toList k <;> (simp only at this ⊢; omega)
+    · cases Tree.succOfKey cmp t.root k <;> (simp only at this ⊢; omega)
   | lesserThan k =>
     refine ⟨hrb, ?_⟩
     have := hlook k
@@ -158,7 +158,7 @@ theorem balanced_any_cmp (t : TreeTable) (hrb : t.root.RB) (hs : t.size = t.root
     generalize t.lookup cmp k = r at this ⊢
     rcases r with ⟨_ | v, n⟩
     · simp only at this ⊢; omega
-    · cases Tree.prevBefore t.root.toList k <;> (simp only at this ⊢; omega)
+    · cases Tree.predOfKey cmp t.root k <;> (simp only at this ⊢; omega)
   | _ => exact ⟨hrb, Nat.zero_le _⟩
 
 /-! ## Non-vacuity: the bound is attained, and a degenerate tree violates the invariant -/
